@@ -15,7 +15,7 @@ func init() { Registry["C03"] = Spec{Run: runC03, Packages: []string{"txtar"}} }
 func runC03(ctx *core.Ctx) {
 	ctx.Trusted = append(ctx.Trusted, "go/types, go/ssa", "library-fact table of the bounds engine (bytes.Index*, HasPrefix/HasSuffix, TrimSpace, len/cap semantics)",
 		"standard-library callees (bytes.*, strings.*, os.ReadFile, golang.org/x/tools/txtar.Format) are total on in-range arguments")
-	ctx.Rule("TOT", "totality of txtar.Parse/ParseFile: every index and slice expression, type assertion, division, make and explicit panic in every module function reachable from Parse and ParseFile is proved unable to panic, from facts that dominate it on the control-flow graph pruned at no-return calls", 10)
+	ctx.Rule("TOT", "totality of txtar.Parse/ParseFile: every index and slice expression, type assertion, division, make and explicit panic in every module function reachable from Parse and ParseFile is proved unable to panic, from facts that dominate it on the control-flow graph pruned at no-return calls", 1)
 	ctx.Rule("EXIT", "the marker search gives up only when the library search found nothing: its no-marker return (empty name) is reached only on the edge where bytes.Index returned a negative result", 1)
 	ctx.Rule("DISC", "the parser's loop continues exactly on the component by which the marker search reports a hit: the result that is constant-empty on the search's no-marker return and known non-empty on its marker return", 1)
 	ctx.Rule("PROG", "progress of the marker search: in the function reachable from Parse that scans for a marker (the loop containing the bytes.Index call), the loop-carried index strictly increases on every back edge and stays <= len(data), so the search terminates", 1)
